@@ -31,6 +31,7 @@ def check(ctx, report):
     report.rule('C05.R1', 'every repetition / optional branch / width the parser accepts can be composed')
     report.rule('C05.R2', 'literal zone designator only after normalisation to UTC')
     report.rule('C05.R3', 'SCSV fold (parse) and unfold (compose) are inverse')
+    absent_stays_absent(ctx, report)
     import json, os
     here = os.path.dirname(os.path.dirname(os.path.abspath(__file__)))
     with open(os.path.join(here, 'reviewed.json')) as fh:
@@ -163,3 +164,135 @@ def normalised_to_utc(model, f, recv, call):
                 ('UTC' in ast.unparse(n.value) or 'utc' in ast.unparse(n.value)):
             return True
     return 'astimezone(' in ast.unparse(recv) and ('UTC' in ast.unparse(recv) or 'utc' in ast.unparse(recv))
+
+
+# ---- R4: an absent optional component stays absent ---------------------------------------------------------------
+
+def none_preserving_external(model, name):
+    """is the converter factory ``name`` of the dependency one whose converter maps None to None? decided on the source of
+    cryptodatahub/common/types.py: the factory returns an instance of a class whose __call__ starts with
+    ``if value is None: return None``"""
+    import os
+    from ..model import find_dependency
+    path = os.path.join(find_dependency() or '', 'common', 'types.py')
+    try:
+        with open(path) as fh:
+            tree = ast.parse(fh.read())
+    except (OSError, SyntaxError):
+        return None
+    funcs = {n.name: n for n in tree.body if isinstance(n, ast.FunctionDef)}
+    classes = {n.name: n for n in tree.body if isinstance(n, ast.ClassDef)}
+    f = funcs.get(name)
+    if f is None:
+        return None
+    for r in [n for n in ast.walk(f) if isinstance(n, ast.Return) and isinstance(n.value, ast.Call) and isinstance(n.value.func, ast.Name)]:
+        k = classes.get(r.value.func.id)
+        if k is None:
+            continue
+        call = [m for m in k.body if isinstance(m, ast.FunctionDef) and m.name == '__call__']
+        if not call:
+            return None
+        first = [s for s in call[0].body if not (isinstance(s, ast.Expr) and isinstance(s.value, ast.Constant))][0]
+        return isinstance(first, ast.If) and ast.unparse(first.test) == 'value is None' and len(first.body) == 1 and \
+            isinstance(first.body[0], ast.Return) and ast.unparse(first.body[0]) == 'return None'
+    return None
+
+
+def converter_of_none(ctx, fld):
+    """'none' | 'object' | None (undecided): what the field's converter makes of None"""
+    from ..miniexec import Evaluator, Obj, Raised, Unsupported, class_call_hook
+    node = fld.converter_node
+    model = ctx.model
+    if node is None:
+        return 'none'
+    if isinstance(node, ast.Call) and isinstance(node.func, ast.Name):
+        r = none_preserving_external(model, node.func.id)
+        if r is True:
+            return 'none'
+        if r is False:
+            return 'object'
+        return None
+    if isinstance(node, ast.Attribute) and isinstance(node.value, ast.Name):
+        k = model.resolve_name(fld.owner.module, node.value.id)
+        m = k.resolve(node.attr) if isinstance(k, ClassInfo) else None
+        if m is None or m.module.external:
+            return None
+
+        def extra(n, ev):
+            d = ast.unparse(n.func)
+            if d == 'isinstance':
+                v = ev.ev(n.args[0])
+                return False if v is None else NotImplemented
+            if d == 'cls' or (isinstance(n.func, ast.Name) and n.func.id[:1].isupper()):
+                return Obj(constructed=True)
+            return NotImplemented
+        params = [a.arg for a in m.node.args.args if a.arg not in ('self', 'cls')]
+        try:
+            got = Evaluator({params[0]: None}, class_call_hook(k, extra, model), None).function(m.node)
+        except Raised:
+            return 'object'
+        except (Unsupported, IndexError):
+            return None
+        return 'none' if got is None else 'object'
+    if isinstance(node, ast.Name):
+        k = model.resolve_name(fld.owner.module, node.id)
+        if isinstance(k, ClassInfo):
+            return 'object'
+    return None
+
+
+def component_admits_none(ctx, fld):
+    """can the class the converter wraps None into be constructed with value None?  True when its ``value`` field carries
+    an optional() validator (or none at all) and every __attrs_post_init__ on the way is guarded by ``value is not None``;
+    False when a plain instance_of / in_ validator or an unguarded post-init conversion rejects None"""
+    node = fld.converter_node
+    model = ctx.model
+    if not (isinstance(node, ast.Attribute) and isinstance(node.value, ast.Name)):
+        return None
+    k = model.resolve_name(fld.owner.module, node.value.id)
+    if not isinstance(k, ClassInfo):
+        return None
+    vf = [f for f in k.attrs_fields() if f.name == 'value']
+    if not vf:
+        return None
+    v = vf[-1].validator_node
+    if v is not None and 'optional' not in ast.unparse(v):
+        return False
+    if vf[-1].validator_methods:
+        return None
+    for b in k.mro:
+        if isinstance(b, ClassInfo) and '__attrs_post_init__' in b.methods:
+            pi = b.methods['__attrs_post_init__']
+            guarded = any(isinstance(n, ast.If) and 'self.value is not None' in ast.unparse(n.test) for n in pi.node.body)
+            return True if guarded else None
+    return True
+
+
+def absent_stays_absent(ctx, report):
+    model = ctx.model
+    report.rule('C05.R4', 'an optional field (default None, optional validator) keeps None through its converter')
+    for c in model.repo_classes():
+        if not c.has_attrs():
+            continue
+        for fld in c.attrs_fields():
+            if fld.owner is not c:
+                continue
+            d, v = fld.default_node, fld.validator_node
+            if not (isinstance(d, ast.Constant) and d.value is None) or v is None or 'optional' not in ast.unparse(v):
+                continue
+            report.count('C05.R4')
+            r = converter_of_none(ctx, fld)
+            if r == 'object' and component_admits_none(ctx, fld) is False:
+                # the wrapped None is rejected by the component itself: the field is required in effect (construction and
+                # parsing fail with InvalidValue), nothing absent is ever composed
+                report.sample({'rule': 'C05.R4', 'class': c.name, 'field': fld.name, 'verdict': 'declared optional, None rejected by the component class'}, 12)
+                continue
+            if r == 'object' and component_admits_none(ctx, fld) is None:
+                report.undecided.append('%s.%s: converter wraps None, whether the component class accepts None is decided by a validator method' % (c.name, fld.name))
+                continue
+            if r == 'object':
+                report.add('C05.R4', '%s@optional[%s]' % (c.construct, fld.name),
+                           'the converter %s turns the default None into an object: the absent component is composed as a present one '
+                           '(its value rendered as the text None) and parses back as a different value' % ast.unparse(fld.converter_node))
+            elif r is None:
+                report.undecided.append('%s.%s: converter %s not decidable on None' % (c.name, fld.name, ast.unparse(fld.converter_node)))
